@@ -480,6 +480,213 @@ example : accepts ⟨[⟨.enumE, .val⟩], none⟩ .retype ⟨.ptrFun, [⟨.int,
     ∧ accepts ⟨[⟨.int, .val⟩], some ⟨.int, .val⟩⟩ .retype ⟨.ptrFun, [⟨.enumE, .val⟩], some ⟨.enumE, .val⟩⟩ = false := by
   decide
 
+/-! ## The connect entry points
+
+  `signal<>`, `signal<>::accumulated<>`, `trackable_signal<>`, `trackable_signal<>::accumulated<>` ×
+  `connect`, `connect_first` × `(const slot_type&)`, `(slot_type&&)`: sixteen declared members (`entryDecl`, the
+  table read off signal.h).  Their bodies hand the argument to `signal_base`, which stores any `slot_base`
+  unchecked — so the declared parameter type is the type check.  The theorems say that it is the *same* check at
+  all sixteen: what is not already a `slot_type` must pass `slot_type`'s converting constructor; in particular a
+  slot **object** of another slot type `slot<U>` is judged like any functor with `U`'s signature, whether it is
+  written as an lvalue, a const lvalue or an rvalue. -/
+
+/-- the table as it is: every entry point takes `slot_type` (never the untyped base `slot_base`), by `const&` or
+    `&&` as its overload says -/
+theorem entry_table_slot_type (ep : EntryPoint) :
+    (entryDecl ep).ty = .slotType ∧
+      (entryDecl ep).shape = (match ep.ov with | .constRef => .cref | .rvalueRef => .rref) := by
+  rw [entryDecl_eq]
+  exact ⟨rfl, rfl⟩
+
+/-- `allEntryPoints` lists every entry point; there are sixteen -/
+theorem allEntryPoints_complete (ep : EntryPoint) : ep ∈ allEntryPoints := by
+  obtain ⟨⟨c, a, f⟩, o⟩ := ep
+  cases c <;> cases a <;> cases f <;> cases o <;> decide
+
+example : allEntryPoints.length = 16 := by decide
+
+/-- an argument is recognised as a slot object only when it is one: no adaptor, kind `slotObj` -/
+theorem argSlotSig_some {ad : Adaptor} {fn : Fn} {u : Sig} {form : ArgForm}
+    (h : argSlotSig ad fn = some (u, form)) : ad = .none ∧ fn = slotArg u form := by
+  obtain ⟨k, ps, r⟩ := fn
+  cases ad <;> cases k <;> simp [argSlotSig] at h
+  obtain ⟨hu, hf⟩ := h
+  subst hu hf
+  exact ⟨rfl, rfl⟩
+
+/-- **C05.entry_points_agree** (all signatures, all arities, all functor kinds and adaptor hops) — every one of the
+    sixteen entry points accepts exactly what `slot_type`'s constructors accept (`slot<Sig> s = x;`), for every
+    argument that is not already an object of the signal's own `slot_type` (that one binds directly, see
+    `same_slot_type_entry`). -/
+theorem entry_points_agree (ep : EntryPoint) (sig : Sig) (ad : Adaptor) (fn : Fn)
+    (h : ∀ form, argSlotSig ad fn ≠ some (sig, form)) :
+    entryAccepts ep sig ad fn = acceptsRoute .slotInit sig ad fn := by
+  have ht := refBindsTemp_entry ep
+  have hty : (entryDecl ep).ty = .slotType := by rw [entryDecl_eq]
+  unfold entryAccepts
+  simp only [acceptsRoute, hty, ht, Bool.and_true]
+  cases hs : argSlotSig ad fn with
+  | none => rfl
+  | some uf =>
+    obtain ⟨u, form⟩ := uf
+    have hne : (u == sig) = false := by
+      cases hb : u == sig
+      · rfl
+      · exact absurd (by rw [hs, eq_of_beq hb]) (h form)
+    simp only [hne]
+    rfl
+
+/-- hence any two entry points agree with each other on every such argument -/
+theorem entry_points_agree_pairwise (ep ep' : EntryPoint) (sig : Sig) (ad : Adaptor) (fn : Fn)
+    (h : ∀ form, argSlotSig ad fn ≠ some (sig, form)) :
+    entryAccepts ep sig ad fn = entryAccepts ep' sig ad fn := by
+  rw [entry_points_agree ep sig ad fn h, entry_points_agree ep' sig ad fn h]
+
+/-- non-vacuity: a functor, an adaptor and slot objects of other slot types at `trackable_signal::connect_first(const
+    slot_type&)` and at `signal::accumulated::connect(slot_type&&)`; the hypothesis holds, both verdicts occur -/
+example :
+    (∀ form, argSlotSig .none (slotArg ⟨[⟨.long, .val⟩], none⟩ .lvalue) ≠ some (⟨[⟨.int, .val⟩], none⟩, form))
+    ∧ entryAccepts ⟨⟨.trackable, false, .connectFirst⟩, .constRef⟩ ⟨[⟨.int, .val⟩], none⟩ .none
+        (slotArg ⟨[⟨.long, .val⟩], none⟩ .lvalue) = true
+    ∧ entryAccepts ⟨⟨.trackable, false, .connectFirst⟩, .constRef⟩ ⟨[⟨.int, .val⟩], none⟩ .none
+        (slotArg ⟨[⟨.ptrA, .val⟩], none⟩ .lvalue) = false
+    ∧ entryAccepts ⟨⟨.signal, true, .connect⟩, .rvalueRef⟩ ⟨[⟨.int, .val⟩], none⟩ .none
+        (slotArg ⟨[⟨.int, .lref⟩], none⟩ .rvalue) = false
+    ∧ entryAccepts ⟨⟨.signal, true, .connect⟩, .rvalueRef⟩ ⟨[⟨.int, .val⟩], some ⟨.long, .val⟩⟩ (.hide none)
+        ⟨.lambda, [], some ⟨.int, .val⟩⟩ = true
+    ∧ entryAccepts ⟨⟨.trackable, true, .connectFirst⟩, .rvalueRef⟩ ⟨[⟨.int, .val⟩], some ⟨.int, .val⟩⟩ .none
+        ⟨.freeFn, [⟨.int, .val⟩], some ⟨.enumE, .val⟩⟩ = false := by
+  refine ⟨?_, by decide, by decide, by decide, by decide, by decide⟩
+  intro form
+  cases form <;> decide
+
+/-- a slot object as a functor: `slot<U>` is accepted by `slot<Sig>`'s constructor exactly like a function object
+    with a const `operator()` of `U`'s declared signature — however the object is written, directly and under `hide` /
+    `bind` (`retype` has an overload of its own for slots and none for arbitrary function objects) -/
+theorem slot_object_as_functor (sig u : Sig) (form : ArgForm) (ad : Adaptor) (had : ad ≠ .retype) :
+    accepts sig ad (slotArg u form) = accepts sig ad ⟨.fobjConst, u.params, u.ret⟩ := by
+  have h : adaptArgs ad (slotArg u form) sig.params = adaptArgs ad ⟨.fobjConst, u.params, u.ret⟩ sig.params := by
+    cases ad with
+    | retype => exact absurd rfl had
+    | _ => rfl
+  simp only [accepts, h]
+  cases adaptArgs ad ⟨.fobjConst, u.params, u.ret⟩ sig.params with
+  | none => rfl
+  | some args =>
+    simp only [slotArg]
+    rw [invokeOk_slotObj form u.params u.ret u.ret args]
+
+/-- **slot object into entry point** — a slot object of **another** slot type `slot<U>` (`U ≠ Sig`), written as an
+    lvalue, a const lvalue or an rvalue, is accepted by any of the sixteen entry points exactly when a functor with
+    `U`'s signature is accepted by `slot<Sig>`. -/
+theorem slot_object_entry_points_agree (ep : EntryPoint) (sig u : Sig) (form : ArgForm) (h : u ≠ sig) :
+    entryAccepts ep sig .none (slotArg u form) = accepts sig .none ⟨.fobjConst, u.params, u.ret⟩ := by
+  rw [entry_points_agree ep sig .none (slotArg u form)]
+  · exact slot_object_as_functor sig u form .none (by decide)
+  · intro form' he
+    simp only [argSlotSig, slotArg, Option.some.injEq, Prod.mk.injEq] at he
+    exact h he.1
+
+/-- … i.e. (all arities) exactly when the arities agree, every parameter of `U` binds what the signal passes at that
+    position and `U`'s result can be returned as the signal's result. -/
+theorem slot_object_entry_iff (ep : EntryPoint) (sig u : Sig) (form : ArgForm) (h : u ≠ sig) :
+    entryAccepts ep sig .none (slotArg u form) = true ↔
+      u.params.length = sig.params.length ∧
+      (∀ (i : Nat) (h1 : i < u.params.length) (h2 : i < sig.params.length),
+          binds u.params[i] (passed sig.params[i]) = true) ∧
+      retOk u.ret sig.ret = true := by
+  rw [slot_object_entry_points_agree ep sig u form h, accepts_iff]
+  simp [Kind.objOk]
+
+/-- lvalue, const lvalue, rvalue: alike -/
+theorem slot_object_forms_alike (ep ep' : EntryPoint) (sig u : Sig) (form form' : ArgForm) (h : u ≠ sig) :
+    entryAccepts ep sig .none (slotArg u form) = entryAccepts ep' sig .none (slotArg u form') := by
+  rw [slot_object_entry_points_agree ep sig u form h, slot_object_entry_points_agree ep' sig u form' h]
+
+/-- non-vacuity: `slot<long(long, const A&)>` into `signal<int(int, B&)>` (conversions at a parameter, a base class
+    reference and the result) is accepted at `trackable_signal::accumulated::connect_first(const slot_type&)`;
+    `slot<void(int&)>` into `signal<void(int)>` is not; the two signatures differ -/
+example :
+    (⟨[⟨.long, .val⟩, ⟨.clsA, .cref⟩], some ⟨.long, .val⟩⟩ : Sig) ≠ ⟨[⟨.int, .val⟩, ⟨.clsB, .lref⟩], some ⟨.int, .val⟩⟩
+    ∧ entryAccepts ⟨⟨.trackable, true, .connectFirst⟩, .constRef⟩
+        ⟨[⟨.int, .val⟩, ⟨.clsB, .lref⟩], some ⟨.int, .val⟩⟩ .none
+        (slotArg ⟨[⟨.long, .val⟩, ⟨.clsA, .cref⟩], some ⟨.long, .val⟩⟩ .constLvalue) = true
+    ∧ entryAccepts ⟨⟨.trackable, true, .connectFirst⟩, .constRef⟩ ⟨[⟨.int, .val⟩], none⟩ .none
+        (slotArg ⟨[⟨.int, .lref⟩], none⟩ .lvalue) = false := by decide
+
+/-- an object of the signal's **own** `slot_type` is not converted: the reference parameter binds it directly —
+    `const slot_type&` always, `slot_type&&` an rvalue only -/
+theorem same_slot_type_entry (ep : EntryPoint) (sig : Sig) (form : ArgForm) :
+    entryAccepts ep sig .none (slotArg sig form) = (ep.ov == .constRef || form == .rvalue) := by
+  obtain ⟨ps, r⟩ := sig
+  simp only [entryAccepts, entryDecl_eq, argSlotSig, slotArg, beq_self_eq_true, if_true]
+  cases ep.ov <;> cases form <;> rfl
+
+example : entryAccepts ⟨⟨.signal, false, .connect⟩, .rvalueRef⟩ ⟨[⟨.int, .val⟩], none⟩ .none
+      (slotArg ⟨[⟨.int, .val⟩], none⟩ .lvalue) = false
+    ∧ entryAccepts ⟨⟨.signal, false, .connect⟩, .rvalueRef⟩ ⟨[⟨.int, .val⟩], none⟩ .none
+      (slotArg ⟨[⟨.int, .val⟩], none⟩ .rvalue) = true
+    ∧ entryAccepts ⟨⟨.signal, false, .connect⟩, .constRef⟩ ⟨[⟨.int, .val⟩], none⟩ .none
+      (slotArg ⟨[⟨.int, .val⟩], none⟩ .lvalue) = true := by decide
+
+/-- **nothing enters the list unchecked**: whatever any of the sixteen entry points accepts — functor, adaptor, slot
+    object of any slot type, in any form — is accepted by `slot_type`'s own type check (`accepts`), hence satisfies
+    every `…_rejected` theorem above read contrapositively. -/
+theorem entry_accepts_sound (ep : EntryPoint) (sig : Sig) (ad : Adaptor) (fn : Fn)
+    (h : entryAccepts ep sig ad fn = true) : accepts sig ad fn = true := by
+  by_cases hs : ∃ form, argSlotSig ad fn = some (sig, form)
+  · obtain ⟨form, hs⟩ := hs
+    obtain ⟨had, hfn⟩ := argSlotSig_some hs
+    subst had hfn
+    obtain ⟨ps, r⟩ := sig
+    exact identical_signature_accepted ps r (.slotObj form) rfl
+  · have hs' : ∀ form, argSlotSig ad fn ≠ some (sig, form) := fun form he => hs ⟨form, he⟩
+    rw [entry_points_agree ep sig ad fn hs'] at h
+    exact h
+
+/-- the call expression `sig.connect(x)` / `sig.connect_first(x)` (overload resolution over the pair) is well-formed
+    exactly when `slot<Sig> s = x;` is — for every argument, every signal class, every arity -/
+theorem call_accepts_iff (c : CallFamily) (sig : Sig) (ad : Adaptor) (fn : Fn) :
+    callAccepts c sig ad fn = accepts sig ad fn := by
+  by_cases hs : ∃ form, argSlotSig ad fn = some (sig, form)
+  · obtain ⟨form, hs⟩ := hs
+    obtain ⟨had, hfn⟩ := argSlotSig_some hs
+    subst had hfn
+    have h1 : accepts sig .none (slotArg sig form) = true := by
+      obtain ⟨ps, r⟩ := sig
+      exact identical_signature_accepted ps r (.slotObj form) rfl
+    simp [callAccepts, same_slot_type_entry, h1]
+  · have hs' : ∀ form, argSlotSig ad fn ≠ some (sig, form) := fun form he => hs ⟨form, he⟩
+    simp [callAccepts, entry_points_agree _ sig ad fn hs', acceptsRoute]
+
+/-- **an incompatible slot object is rejected at every entry point and by every call expression**, in every form: if
+    a functor with `U`'s signature is not acceptable for `Sig` (wrong arity, non-convertible parameter, non-const
+    reference from a value, incompatible / explicit-only result …), `slot<U>` does not get into a `signal<Sig>`. -/
+theorem incompatible_slot_object_rejected (sig u : Sig) (form : ArgForm)
+    (h : accepts sig .none ⟨.fobjConst, u.params, u.ret⟩ = false) :
+    (∀ ep, entryAccepts ep sig .none (slotArg u form) = false) ∧
+      (∀ c, callAccepts c sig .none (slotArg u form) = false) := by
+  have h' : accepts sig .none (slotArg u form) = false := by
+    rw [slot_object_as_functor sig u form .none (by decide)]; exact h
+  refine ⟨fun ep => ?_, fun c => by rw [call_accepts_iff]; exact h'⟩
+  cases he : entryAccepts ep sig .none (slotArg u form)
+  · rfl
+  · rw [entry_accepts_sound ep sig .none _ he] at h'
+    cases h'
+
+/-- non-vacuity, one per defect flavour (`signal<int(int)>` / `signal<void(int)>`): wrong arity, non-convertible
+    parameter, non-const reference from a value, incompatible result, explicit-only result -/
+example :
+    accepts ⟨[⟨.int, .val⟩], none⟩ .none ⟨.fobjConst, [], none⟩ = false
+    ∧ accepts ⟨[⟨.int, .val⟩], none⟩ .none ⟨.fobjConst, [⟨.ptrA, .val⟩], none⟩ = false
+    ∧ accepts ⟨[⟨.int, .val⟩], none⟩ .none ⟨.fobjConst, [⟨.int, .lref⟩], none⟩ = false
+    ∧ accepts ⟨[⟨.int, .val⟩], some ⟨.int, .val⟩⟩ .none ⟨.fobjConst, [⟨.int, .val⟩], some ⟨.ptrA, .val⟩⟩ = false
+    ∧ accepts ⟨[⟨.int, .val⟩], some ⟨.int, .val⟩⟩ .none ⟨.fobjConst, [⟨.int, .val⟩], some ⟨.enumE, .val⟩⟩ = false
+    ∧ callAccepts ⟨.trackable, false, .connectFirst⟩ ⟨[⟨.int, .val⟩], none⟩ .none
+        (slotArg ⟨[⟨.ptrA, .val⟩], none⟩ .constLvalue) = false
+    ∧ callAccepts ⟨.trackable, false, .connectFirst⟩ ⟨[⟨.int, .val⟩], none⟩ .none
+        (slotArg ⟨[⟨.double, .cref⟩], none⟩ .rvalue) = true := by decide
+
 /-! ## The erased call (anchor "function_pointer_cast erases and restores the exact call_it signature") -/
 
 /-- **C05.erased_call_type_exact** — all the type checking above happens in `call_it`'s body under the function type
